@@ -63,7 +63,7 @@ def gen_case(rnd, want_overlap=False, clusters=False, nmax=12):
             ms = rnd.sample(range(n), kk)
             c = [3, dim, kk]
             for i in ms:
-                c += [i, rnd.choice([-20, -10, 10, 20])]
+                c += [i, rnd.choice([-20, -10, 0, 0, 10, 20])]
             cons.append(c)
         elif k in (4, 5) and len(align_idx[dim]) >= 2:
             np_ = rnd.randint(1, min(2, len(align_idx[dim]) - 1))
@@ -87,7 +87,15 @@ def gen_case(rnd, want_overlap=False, clusters=False, nmax=12):
         rnd.shuffle(ids)
         a = ids[:rnd.randint(1, n // 2)]
         b = ids[len(a):len(a) + rnd.randint(1, max(1, (n - len(a)) // 2))]
-        cl = [(rnd.choice([0, 2, 5]), rnd.choice([0, 2, 5]), a), (rnd.choice([0, 2]), rnd.choice([0, 2]), b)]
+        cl = [(rnd.choice([0, 2, 5]), rnd.choice([0, 2, 5]), -1, a), (rnd.choice([0, 2]), rnd.choice([0, 2]), -1, b)]
+        if n >= 6 and rnd.random() < 0.5:
+            # a hierarchy: P{direct nodes, C{D1{..}, D2{..}}} where C may have no direct member of its own, next to free nodes
+            k = rnd.randint(5, min(n - 1, 8))
+            mem = ids[:k]
+            pn, d1, d2 = mem[:1], mem[1:1 + max(1, (k - 1) // 2)], mem[1 + max(1, (k - 1) // 2):]
+            cdirect = [d2.pop()] if len(d2) > 1 and rnd.random() < 0.4 else []
+            pm = lambda: (rnd.choice([0, 2]), rnd.choice([0, 2]))
+            cl = [pm() + (-1, pn), pm() + (0, cdirect), pm() + (1, d1), pm() + (1, d2)]
     return {'nodes': nodes, 'edges': sorted(edges), 'flags': flags, 'cons': cons, 'groups': groups, 'clusters': cl}
 
 
@@ -108,8 +116,8 @@ def write_cases(path, cases):
             for g in c['groups']:
                 row += [len(g)] + g
             row.append(len(c['clusters']))
-            for pad, margin, ns in c['clusters']:
-                row += [pad, margin, len(ns)] + ns
+            for pad, margin, parent, ns in c['clusters']:
+                row += [pad, margin, parent, len(ns)] + ns
             f.write(' '.join(map(str, row)) + '\n')
 
 
